@@ -4,7 +4,7 @@
 From Coq Require Import List Arith Bool ZArith QArith Qcanon Ring_theory.
 Import ListNotations.
 Require Import NV.C02.Model NV.C02.Exec NV.C02.ProofsGen NV.C02.ProofsGather NV.C02.ProofsKron NV.C02.ProofsBlk
-               NV.C02.ProofsCplx NV.C02.ProofsSAA NV.C02.ProofsCls NV.C02.ProofsCls2 NV.C02.ProofsSplit NV.C02.ProofsTr.
+               NV.C02.ProofsCplx NV.C02.ProofsSAA NV.C02.ProofsCls NV.C02.ProofsCls2 NV.C02.ProofsSplit NV.C02.ProofsTr NV.C02.ProofsND.
 Local Open Scope nat_scope.
 
 Definition cring (T : Type) (t0 t1 : T) (tadd tmul : T -> T -> T) (topp : T -> T) : Prop :=
@@ -251,6 +251,55 @@ Theorem C02_transpose_is_permutation :
   forall T (t1 : T) shs indices, is_perm (length (flat shs)) (np_axes shs indices) ->
     exists b, spec_transpose T t1 shs indices = bg T t1 b /\ iperm b.
 Proof. exact transpose_spec. Qed.
+
+(* ---------------- N-dimensional lifting of the per-axis formulas ---------------- *)
+(* a Kronecker product of per-axis blocks acts on the C-order flattened N-dimensional array axis by
+   axis:  out[o1..od] = sum_{i1} B1[o1,i1] sum_{i2} B2[o2,i2] ... in[i1..id]   ([kapply]) *)
+Theorem C02_kron_list_semantics :
+  forall T t0 t1 tadd tmul topp, cring T t0 t1 tadd tmul topp ->
+  forall (l : list (blk T)) xf o,
+    Forall (binb T) l -> Forall2 (fun oi b => oi < bm T b) o l ->
+    apply T t0 tadd tmul (bmat T (bkron_list T t1 tmul l)) xf (ravel (map (bm T) l) o)
+    = kapply T t0 tadd tmul l (fun idx => xf (ravel (map (bn T) l) idx)) o.
+Proof. exact kron_list_semantics. Qed.
+
+(* per-axis gathers in N dimensions: out[o1..od] = in[idx1[o1], .., idxd[od]] *)
+Theorem C02_gathers_nd :
+  forall T t0 t1 tadd tmul topp, cring T t0 t1 tadd tmul topp ->
+  forall (l : list iblk) xf o,
+    Forall ivalid l -> Forall2 (fun oi b => oi < length (snd b)) o l ->
+    apply T t0 tadd tmul (bmat T (bkron_list T t1 tmul (map (bg T t1) l))) xf (ravel (map (fun b => length (snd b)) l) o)
+    = xf (ravel (map fst l) (map (fun '(oi, b) => nth oi (snd b) 0) (combine o l))).
+Proof. exact gathers_nd. Qed.
+
+(* blocks with out[o] = in[p o] or 0 per axis (slices, shifts, zero padding, masks) in N dimensions *)
+Theorem C02_partial_gathers_nd :
+  forall T t0 t1 tadd tmul topp, cring T t0 t1 tadd tmul topp ->
+  forall (l : list (blk T)) ps xf o,
+    Forall (binb T) l -> Forall2 (pgather_like T t0 tadd tmul) l ps -> Forall2 (fun oi b => oi < bm T b) o l ->
+    apply T t0 tadd tmul (bmat T (bkron_list T t1 tmul l)) xf (ravel (map (bm T) l) o)
+    = match pindex ps o with Some idx => xf (ravel (map (bn T) l) idx) | None => t0 end.
+Proof. exact pgathers_nd. Qed.
+
+(* SliceOperator, any number of sub-domains and axes: out[o1..od] = in[s1+o1, .., sd+od] *)
+Theorem C02_slice_nd :
+  forall T t0 t1 tadd tmul topp, cring T t0 t1 tadd tmul topp ->
+  forall shs new center xf o,
+    let ish := flat shs in let osh := flat (tgt_slice shs new) in
+    Forall2 (fun n len => len <= n) ish osh -> Forall2 lt o osh ->
+    apply T t0 tadd tmul (bmat T (spec_slice T t1 tmul shs new center)) xf (ravel osh o)
+    = xf (ravel ish (map (fun '(oi, (n, len)) => (if center then (n - len) / 2 else 0) + oi) (combine o (combine ish osh)))).
+Proof. exact slice_nd. Qed.
+
+(* FieldZeroPadder on a multi-axis RGSpace, central or not: per axis [pad_p] (the one-axis formula) *)
+Theorem C02_padder_nd :
+  forall T t0 t1 tadd tmul topp, cring T t0 t1 tadd tmul topp ->
+  forall central sh new xf o,
+    Forall2 (fun n m => 0 < n <= m) sh new -> Forall2 lt o new ->
+    apply T t0 tadd tmul (bmat T (bkron_list T t1 tmul (map (fun '(n, m) => pad_axis T t1 central n m) (combine sh new)))) xf (ravel new o)
+    = match pindex (map (fun '(n, m) => pad_p central n m) (combine sh new)) o with
+      | Some idx => xf (ravel sh idx) | None => t0 end.
+Proof. exact padder_nd. Qed.
 
 (* ---------------- non-vacuity ---------------- *)
 Example C02_Qc_is_a_cring : cring Qc Q0 Q1 Qcplus Qcmult Qcopp.
